@@ -31,16 +31,16 @@ Definition srun := Shape.run code handler np is_entry entry.
 Definition sp_of (s : st) : Z := Z.of_nat (length (stk s)) - 1.
 
 (* the handler raised a language exception: control did not go where the instruction sends it *)
-Definition fault_obs (s : st) (ip' : nat) : bool :=
+Definition fault_obs (s : st) (ip' len' : nat) : bool :=
   match code (ip s) with
   | Some (AOp _ _ _) => negb (ip' =? S (ip s))%nat
-  | Some (AFfi r) => negb (ip' =? r)%nat
+  | Some (AFfi r) => negb ((ip' =? r) && (len' =? P s + 1))%nat
   | _ => false
   end.
 
 Definition tstep_obs (s : st) (ip' len' : nat) : option tstep :=
   match nth_error prog (ip s) with
-  | Some i => Some {| t_instr := i; t_fault := fault_obs s ip'; t_sp := sp_of s; t_sp' := Z.of_nat len' - 1 |}
+  | Some i => Some {| t_instr := i; t_fault := fault_obs s ip' len'; t_sp := sp_of s; t_sp' := Z.of_nat len' - 1 |}
   | None => None
   end.
 
